@@ -89,4 +89,20 @@ theorem hbStep_refines (pt : Int) (b : String) (s : St D) (hb : Ev D) (m : Meta)
       · rw [hview]; exact Spec.onEvents_self hv
       · intro b' hb'; rw [hview]; exact Spec.frame_replaceId hb'
 
+/-! ## a concrete state: two populated buckets and the empty bucket "c" -/
+
+def exHb : St Nat :=
+  { buckets := [⟨1, "a", default⟩, ⟨2, "b", default⟩, ⟨3, "c", default⟩],
+    events := [⟨1, 1, 10, 15, 0⟩, ⟨2, 2, 10, 12, 1⟩, ⟨3, 1, 10, 20, 2⟩],
+    seqB := 3, seqE := 3 }
+
+theorem exHb_inv : Inv exHb := by
+  unfold Inv exHb
+  decide
+
+theorem exHb_view : view exHb "c" = some (default, []) := rfl
+
+/-- two heartbeats before the epoch, 1 µs apart, same data -/
+def cexStream : List (Ev Nat) := [⟨none, -10, 1, 7⟩, ⟨none, -9, 1, 7⟩]
+
 end Aw.Store.Sqlite
